@@ -8,7 +8,8 @@ Families == {"s22", "s23", "kb"} \cup (IF Tier = "quick" THEN {} ELSE {"s33", "s
 KPosSV(d) == {k \in KVariants(d) : k[1] \in {"none", "scalar", "vector"} /\ k[3] <= 2}
 (* small units (D = 2) keep the polygon arithmetic within 32 bits *)
 SystemsOf(f) ==
-  CASE f = "s22" -> {Plain(A22, 2, Vec(2, 0), Vec(2, 2)), Plain(A22, 2, <<1, 0>>, <<2, 4>>)}
+  CASE f = "s22" -> {Plain(A22, 2, Vec(2, 0), Vec(2, 2)), Plain(A22, 2, <<1, 0>>, <<2, 4>>),
+                     Plain(A22, 2, <<-1, 0>>, <<2, 2>>)}         \* a negative lower bound (rig addressed relative to a background)
     [] f = "s23" -> {Plain(A23, 2, Vec(3, 0), Vec(3, 2)), Plain(A23b, 2, Vec(3, 0), <<2, 4, 2>>)}
     [] f = "s33" -> {Plain(A33, 2, Vec(3, 0), Vec(3, 2))}
     [] f = "s34" -> {Plain(A34, 2, Vec(4, 0), Vec(4, 2))}
@@ -20,6 +21,7 @@ RowPool(s) ==
   LET d == Len(s.A)
       top == [i \in 1..d |-> BoxHi(s, i, s.ub)]
   IN {[i \in 1..d |-> Max2(1, (top[i] * f[i]) \div 4)] : f \in [1..d -> {1, 2, 5}]}
+     \cup {[i \in 1..d |-> IF i = j THEN -2 ELSE Max2(2, top[i] \div 2)] : j \in 1..d}     \* far outside: a negative component
 TargetSets(s) ==
   LET P == RowPool(s)
   IN {<<r>> : r \in P} \cup {t \in {<<r, q>> : r \in P, q \in P} : VLess(t[1], t[2])}
